@@ -31,9 +31,9 @@ type event struct {
 	Case any    `json:"case,omitempty"`
 
 	// refs / round
-	Counts map[string]int `json:"counts,omitempty"`
-	Keys   []caseKey      `json:"keys,omitempty"`
-	Sample any            `json:"sample,omitempty"`
+	Counts map[string]int      `json:"counts,omitempty"`
+	Keys   []caseKey           `json:"keys,omitempty"`
+	Sample any                 `json:"sample,omitempty"`
 	Lists  map[string][]string `json:"lists,omitempty"`
 }
 
@@ -65,13 +65,13 @@ func (j *journal) violation(sig, what string, c any) {
 // ---- child ---------------------------------------------------------------------------------------
 
 type env struct {
-	seed    int64
-	g       int
-	srv     *servers
-	specs   []*mechSpec
-	byID    map[string]*mechSpec
-	ref     map[string]string // mech|override|input -> behaviour (override "" = prototype)
-	j       *journal
+	seed     int64
+	g        int
+	srv      *servers
+	specs    []*mechSpec
+	byID     map[string]*mechSpec
+	ref      map[string]string // mech|override|input -> behaviour (override "" = prototype)
+	j        *journal
 	reported map[string]bool // per-child de-duplication of identical violations
 }
 
@@ -246,6 +246,7 @@ type mismatch struct {
 }
 
 func (e *env) checkBehaviour(o *object, in *input, b behaviour, phase string, round int, counts map[string]int, orders map[string][]string) {
+	countLifetimes(in, b, counts)
 	want, ok := e.ref[refKey(o.Spec, o.ovName(), in.Name)]
 	if !ok {
 		return
@@ -267,6 +268,25 @@ func (e *env) checkBehaviour(o *object, in *input, b behaviour, phase string, ro
 		fmt.Sprintf("%s %q (%s %s) behaves differently %s than the same object in isolation (input %s)", o.Spec.Kind, o.Spec.ID, role, o.Tag, phase, in.Name),
 		map[string]any{"round": round, "mechanism": o.Spec.ID, "type": o.Spec.Type, "object": o.Tag, "prototype_config": o.Spec.Cfg, "override": ovCfg(o),
 			"creation_order_of_variants": append([]string(nil), orders[o.Spec.ID]...), "input": in, "expected_isolated_behaviour": json.RawMessage(want), "observed": b, "phase": phase})
+}
+
+// countLifetimes: which of the two sources determined the ttl handed to the cache when the upstream
+// answer carried a lifetime.
+func countLifetimes(in *input, b behaviour, counts map[string]int) {
+	bounded := false
+	for _, t := range b.CacheTTLs {
+		if strings.HasPrefix(t, "lifetime(") {
+			bounded = true
+		}
+	}
+	switch {
+	case bounded:
+		counts["executions_with_cache_ttl_bounded_by_upstream_lifetime"]++
+	case in.Life != 0 && len(b.CacheTTLs) > 0:
+		counts["executions_with_configured_cache_ttl_below_upstream_lifetime"]++
+	case in.Life != 0 && b.Err == "":
+		counts["executions_with_upstream_lifetime_not_cached"]++
+	}
 }
 
 func ovCfg(o *object) any {
@@ -595,14 +615,14 @@ func TestC17(t *testing.T) {
 		return
 	}
 	r := core.Begin("C17", "exploration")
-	r.Rule("every mechanism type of the catalogue (authenticators anonymous, unauthorized, basic_auth, generic, jwt with jwks_endpoint / metadata_endpoint / templated metadata_endpoint, " +
-		"oauth2_introspection with introspection_endpoint / metadata_endpoint; authorizers allow, deny, cel, remote; generic contextualizer; finalizers header, cookie, jwt, noop, " +
+	r.Rule("every mechanism type of the catalogue (authenticators anonymous, unauthorized, basic_auth, generic, jwt with jwks_endpoint / metadata_endpoint / templated metadata_endpoint / keys with certificates, " +
+		"oauth2_introspection with introspection_endpoint / metadata_endpoint and cache ttls below / between / above the lifetimes in the introspection responses; authorizers allow, deny, cel, remote; generic contextualizer; finalizers header, cookie, jwt, noop, " +
 		"oauth2_client_credentials; error handlers default, redirect, www_authenticate) is loaded through the real mechanism factory of a freshly assembled heimdall instance per round; " +
 		"every overridable option alone and combined is turned into a rule-level variant, in a seeded random global creation order (a quarter of the override sets twice); " +
 		"even rounds are cold (the first execution of every object happens when 16 goroutines are released by a barrier, each starting with a different object of the mechanism), " +
 		"odd rounds execute prototypes and earlier variants sequentially between creations. Monitors: race detector (child process), reflective deep fingerprint of every prototype " +
 		"and variant (after each creation, after sequential and after concurrent executions), behaviour (result of Execute incl. subject, upstream headers/cookies, outputs, pipeline " +
-		"error, cache TTLs) against hash-echo servers compared with the same object's behaviour in an instance where nothing else was created or executed, and variant == fresh " +
+		"error, cache TTLs; upstream answers without lifetime, with a lifetime shorter and with one longer than the configured cache ttl in every round) against hash-echo servers compared with the same object's behaviour in an instance where nothing else was created or executed, and variant == fresh " +
 		"prototype built from the overlaid configuration. A case is one (round, mechanism, creation order of its variants); non-trivial if at least one variant coexisted with the prototype.")
 	r.Assume("overlay semantics assumed for the fresh-prototype comparison: maps are merged key-wise, every other value is replaced; override sets where this is not what heimdall documents "+
 		"(header/cookie finalizer with new keys) are only checked for locality",
@@ -694,7 +714,7 @@ func TestC17(t *testing.T) {
 				r.Violation(raceSignature(rc.Key), "race detector: "+rc.Key, map[string]any{"batch": tag, "frames": rc.Key, "count": rc.Count, "report": rc.Text})
 			}
 			for _, hz := range cr.Hazards {
-				r.Violation("deadlock", "a goroutine re-acquires a lock it holds: "+hz, map[string]any{"batch": tag, "hazard": hz, "child_blocked_until_stopped": cr.TimedOut})
+				r.Violation("deadlock", "lock discipline violated (reported by the shim before the goroutine blocked): "+hz, map[string]any{"batch": tag, "hazard": hz, "child_blocked_until_stopped": cr.TimedOut})
 			}
 			switch {
 			case cr.TimedOut && len(cr.Hazards) > 0:
@@ -738,6 +758,8 @@ func TestC17(t *testing.T) {
 	r.Require("cold_rounds", r.Counter("cold_rounds"), 1)
 	r.Require("barriers_with_prototype_and_variants", r.Counter("barriers_with_prototype_and_variants"), int64(rounds*10))
 	r.Require("concurrent_executions", r.Counter("concurrent_executions"), int64(rounds*1000))
+	r.Require("executions_with_cache_ttl_bounded_by_upstream_lifetime", r.Counter("executions_with_cache_ttl_bounded_by_upstream_lifetime"), int64(rounds*30))
+	r.Require("executions_with_configured_cache_ttl_below_upstream_lifetime", r.Counter("executions_with_configured_cache_ttl_below_upstream_lifetime"), int64(rounds*30))
 	r.Require("fingerprint_comparisons", r.Counter("fingerprint_comparisons"), int64(rounds*500))
 	r.End()
 }
